@@ -1,4 +1,6 @@
 import TSSVerif.Model.Adapter
+import TSSVerif.Gen.Stmts
+import TSSVerif.Model.StmtsExpected
 /-!
 # C19 — tss-lib adapters: receiver-side classification and sender binding
 
@@ -85,5 +87,11 @@ theorem hashToInt_spec (hash : List Nat) : hashToInt 256 hash = beNat (hash.take
 example : ecdsa "type.googleapis.com/binance.tsslib.ecdsa.signing.SignRound3Message" = (4, true) := by decide +kernel
 example : eddsa "type.googleapis.com/binance.tsslib.eddsa.keygen.KGRound2Message1" = (2, false) := by decide +kernel
 example : onMsgAccepts (some 7) 7 = true ∧ onMsgAccepts (some 7) 8 = false := by decide
+
+/-- **The source the model was transcribed from is the current source**: the statements of `ClassifyMsg`, `OnMsg`, `Sign`, `hashToInt`, `digest`, `sendMessages`, `Init` and the identifier helpers of both adapters, regenerated from
+`/repo` on this run, are the committed ones (logging left out). A change of any of them — harmless or not — fails here
+first; the differential and monitored runs of this property are then the search for an input on which it fails. -/
+theorem source_as_modelled : TSSVerif.Gen.Stmts.adapter = TSSVerif.Model.StmtsExpected.adapter := by
+  decide +kernel
 
 end TSSVerif.Props.C19
